@@ -2,16 +2,17 @@
 # selftest/run.sh [prop...] : must-fail corpus (every mutant must raise a VIOLATION for its property)
 # and must-pass corpus (semantics-preserving refactors must stay silent). Scratch copies live under /tmp and are removed.
 cd "$(dirname "$0")/.."; . ./env.sh
+HERE=$(pwd)
 PROPS="$@"; [ -z "$PROPS" ] && PROPS=$(ls selftest/mutants selftest/refactors 2>/dev/null | grep '^C' | sort -u)
 FAILS=0
 for P in $PROPS; do
   for KIND in mutants refactors; do
     for PATCH in selftest/$KIND/$P/*.patch; do
       [ -f "$PATCH" ] || continue
-      S=$(mktemp -d /tmp/selftest.XXXXXX); rsync -a --exclude .git /repo/ $S/
-      if ! (cd $S && patch -s -p1 < /verif/$PATCH); then echo "SELFTEST-ERROR $P $PATCH does not apply"; FAILS=$((FAILS+1)); rm -rf $S; continue; fi
-      OUT=$(./bin/govc -repo $S -prop $P -tier quick -known known_findings.json -replays /tmp/selftest-replays -noreplay 2>&1); RC=$?
-      rm -rf $S /tmp/selftest-replays
+      S=$(mktemp -d /tmp/selftest.XXXXXX); rsync -a --exclude .git ${VERIF_REPO:-/repo}/ $S/
+      if ! (cd $S && patch -s -p1 < $HERE/$PATCH); then echo "SELFTEST-ERROR $P $PATCH does not apply"; FAILS=$((FAILS+1)); rm -rf $S; continue; fi
+      R=$(mktemp -d /tmp/selftest-replays.XXXXXX); OUT=$(./bin/govc -repo $S -prop $P -tier quick -known known_findings.json -replays $R -noreplay 2>&1); RC=$?
+      rm -rf $S $R
       if [ $KIND = mutants ]; then
         if [ $RC -eq 1 ] && echo "$OUT" | grep -q "^VIOLATION property=$P"; then echo "ok   caught  $P $(basename $PATCH .patch): $(echo "$OUT" | grep -c '^VIOLATION') obligation(s), first: $(echo "$OUT" | grep -m1 '^VIOLATION' | sed 's/.*obligation=\([^ ]*\).*/\1/')"
         else echo "MISS         $P $(basename $PATCH .patch) (rc=$RC) $(echo "$OUT" | tail -1)"; FAILS=$((FAILS+1)); fi
